@@ -16,7 +16,7 @@
 (*       at the begin of the rotation), the                                 *)
 (*       naming state keeps what was assigned before the failing effect     *)
 (*       (NumbersDirect: idx+1, Timestamps: the new timestamp)              *)
-(* Scope: synchronous cleanup included (remove, compress); no symlink.      *)
+(* Scope: synchronous cleanup (remove, compress) and the symlink included.   *)
 (*                                                                         *)
 (* Model checking mode: a fault plan (from, burst) as the harness uses it - *)
 (* the effects number from..from+burst-1 of the whole history fail. TLC     *)
@@ -36,8 +36,9 @@ VARIABLES nfx,      \* number of effects performed so far in the history
           lostw,    \* ids of records whose own write (or the initialisation before it) failed
           rep,      \* what the last action reported: sequence of error codes
           lastfx,   \* names of the effects of the last action
-          recov     \* number of records written successfully since the last failed effect
-fvars == <<vars, nfx, plan, lostw, rep, lastfx, recov>>
+          recov,    \* number of records written successfully since the last failed effect
+          lnk       \* create_symlink: [on, has, n] - configured, the link exists, the family name it points to
+fvars == <<vars, nfx, plan, lostw, rep, lastfx, recov, lnk>>
 
 Fl(FL, j) == j <= Len(FL) /\ FL[j]
 \* model checking mode: the failure flags of the next 16 effects according to the plan
@@ -166,13 +167,50 @@ RotateF(c, d, fa, wa, t, FL, j0) ==
                      [ok |-> cl.ok, d |-> cl.d, f |-> cl.f, w |-> r.w, used |-> cl.used, fx |-> <<"fs:open">> \o cl.fx]
 
 (***************************************************************************)
+(* create_symlink (open_log_file, platform::unix_create_symlink): BEFORE    *)
+(* the file is opened the link is replaced: fs:unlink_link (only if a link   *)
+(* exists), fs:symlink - also when the open then fails (the link dangles).   *)
+(* Failures at these two hook points are ignored by the code (`.ok()`, the   *)
+(* effect is performed regardless), so they only occupy positions in FL.    *)
+(* The link-less operators above are wrapped: the positions of the link      *)
+(* effects are cut out of FL, the effects spliced into fx before fs:open.   *)
+(***************************************************************************)
+NoLink == [on |-> FALSE, has |-> FALSE, n |-> Cur]
+LkFx(l) == IF ~l.on THEN <<>> ELSE IF l.has THEN <<"fs:unlink_link", "fs:symlink">> ELSE <<"fs:symlink">>
+LkSet(l, path) == IF l.on THEN [l EXCEPT !.has = TRUE, !.n = path] ELSE l
+Pad(FL) == FL \o [j \in 1..24 |-> FALSE]
+Splice(FL, p, nl) == SubSeq(FL, 1, p - 1) \o SubSeq(FL, p + nl, Len(FL))
+HasOpen(fx) == \E k \in 1..Len(fx) : fx[k] = "fs:open"
+OpenAt(fx) == CHOOSE k \in 1..Len(fx) : fx[k] = "fs:open" /\ \A j \in 1..(k - 1) : fx[j] # "fs:open"
+WithLink(fx, l) == LET k == OpenAt(fx) IN SubSeq(fx, 1, k - 1) \o LkFx(l) \o SubSeq(fx, k, Len(fx))
+
+InitializeL(c, d, f, t, FL, l) ==
+    LET nl == Len(LkFx(l))
+        p  == IF c.rot /\ c.naming \in {"Num", "Ts"} /\ ~c.append THEN 2 ELSE 1
+        R0 == InitializeF(c, d, f, t, Splice(Pad(FL), p, nl))
+    IN IF HasOpen(R0.fx)
+       THEN [ok |-> R0.ok, d |-> R0.d, f |-> R0.f, w |-> R0.w, legit |-> R0.legit, used |-> R0.used + nl,
+             fx |-> WithLink(R0.fx, l), lk |-> LkSet(l, Initialize(NoClean(c), d, f, t).w.path)]
+       ELSE [ok |-> R0.ok, d |-> R0.d, f |-> R0.f, w |-> R0.w, legit |-> R0.legit, used |-> R0.used, fx |-> R0.fx, lk |-> l]
+
+RotateL(c, d, fa, wa, t, FL, j0, l) ==
+    LET nl == Len(LkFx(l))
+        p  == j0 + (IF c.naming \in {"Num", "Ts"} THEN 2 ELSE 1)
+        R0 == RotateF(c, d, fa, wa, t, Splice(Pad(FL), p, nl), j0)
+    IN IF HasOpen(R0.fx)
+       THEN [ok |-> R0.ok, d |-> R0.d, f |-> R0.f, w |-> R0.w, used |-> R0.used + nl, fx |-> WithLink(R0.fx, l),
+             lk |-> LkSet(l, Rotate(NoClean(c), d, FlushInto(fa, wa), [wa EXCEPT !.buf = <<>>], t).w.path)]
+       ELSE [ok |-> R0.ok, d |-> R0.d, f |-> R0.f, w |-> R0.w, used |-> R0.used, fx |-> R0.fx, lk |-> l]
+
+(***************************************************************************)
 (* Actions                                                                 *)
 (***************************************************************************)
 FInit == /\ Init /\ nfx = 0 /\ lostw = {} /\ rep = <<>> /\ lastfx = <<>> /\ recov = 0
+         /\ lnk \in {NoLink, [NoLink EXCEPT !.on = TRUE]}
          /\ plan \in [from : 0..MaxFrom, burst : Bursts]
          /\ (plan.from = 0 => plan.burst = 1)
 
-Quiet(next) == /\ next /\ rep' = <<>> /\ lastfx' = <<>> /\ UNCHANGED <<nfx, plan, lostw, recov>>
+Quiet(next) == /\ next /\ rep' = <<>> /\ lastfx' = <<>> /\ UNCHANGED <<nfx, plan, lostw, recov, lnk>>
 
 StartF(ap) == Quiet(Start(ap))
 AdvanceF(dt) == Quiet(Advance(dt))
@@ -182,23 +220,23 @@ WriteFL(len, FL) ==
     /\ w.st \in {"init", "act"} /\ Len(logged) < MaxRecs /\ ~needReopen
     /\ LET id == Len(logged) + 1
            lg == Append(logged, len)
-           i0 == IF w.st = "init" THEN InitializeF(cfg, dir, files, clk, FL)
-                 ELSE [ok |-> TRUE, d |-> dir, f |-> files, w |-> w, legit |-> {}, used |-> 0, fx |-> <<>>]
+           i0 == IF w.st = "init" THEN InitializeL(cfg, dir, files, clk, FL, lnk)
+                 ELSE [ok |-> TRUE, d |-> dir, f |-> files, w |-> w, legit |-> {}, used |-> 0, fx |-> <<>>, lk |-> lnk]
        IN /\ logged' = lg /\ wt' = Append(wt, clk)
           /\ IF ~i0.ok
              THEN \* initialize()? : the record is not written, the state stays Initial
-                  /\ dir' = i0.d /\ files' = i0.f /\ w' = w
+                  /\ dir' = i0.d /\ files' = i0.f /\ w' = w /\ lnk' = i0.lk
                   /\ lostw' = lostw \cup {id} /\ rep' = <<"Write">> /\ lastfx' = i0.fx /\ nfx' = nfx + i0.used
                   /\ recov' = 0
                   /\ gone' = gone \cup (AllIdsIn(dir, files) \ AllIdsIn(i0.d, i0.f))
                   /\ okgone' = okgone \cup (IF cfg.clean THEN AllIdsIn(dir, files) \ AllIdsIn(i0.d, i0.f) ELSE {})
              ELSE LET due == cfg.rot /\ RotationNecessary(cfg, i0.w, clk)
-                      r0 == IF due THEN RotateF(cfg, i0.d, i0.f, i0.w, clk, FL, i0.used)
-                            ELSE [ok |-> TRUE, d |-> i0.d, f |-> i0.f, w |-> i0.w, used |-> i0.used, fx |-> <<>>]
+                      r0 == IF due THEN RotateL(cfg, i0.d, i0.f, i0.w, clk, FL, i0.used, i0.lk)
+                            ELSE [ok |-> TRUE, d |-> i0.d, f |-> i0.f, w |-> i0.w, used |-> i0.used, fx |-> <<>>, lk |-> i0.lk]
                       dropped == "drop_on_rotation_failure" \in Mutations /\ ~r0.ok
                       wfail == dropped \/ Fl(FL, r0.used + 1)
                       bw == BufWrite(cfg, r0.f, r0.w, id, len, lg)
-                  IN /\ dir' = r0.d
+                  IN /\ dir' = r0.d /\ lnk' = r0.lk
                      /\ files' = IF wfail THEN r0.f ELSE bw.f
                      /\ w' = IF wfail THEN r0.w ELSE [r0.w EXCEPT !.buf = bw.buf, !.size = @ + len]
                      /\ lostw' = IF wfail /\ ~dropped THEN lostw \cup {id} ELSE lostw
@@ -214,8 +252,8 @@ WriteFL(len, FL) ==
 \* trigger_rotation: forced rotation; before the first write or without rotation nothing happens
 TriggerFL(FL) ==
     /\ w.st = "act" /\ cfg.rot /\ trigs < MaxTrig /\ ~needReopen
-    /\ LET r0 == RotateF(cfg, dir, files, w, clk, FL, 0) IN
-       /\ dir' = r0.d /\ files' = r0.f /\ w' = r0.w
+    /\ LET r0 == RotateL(cfg, dir, files, w, clk, FL, 0, lnk) IN
+       /\ dir' = r0.d /\ files' = r0.f /\ w' = r0.w /\ lnk' = r0.lk
        /\ rep' = IF r0.ok THEN <<>> ELSE <<"ret:err">>
        /\ lastfx' = r0.fx /\ nfx' = nfx + r0.used
        /\ recov' = IF r0.ok THEN recov ELSE 0
@@ -234,7 +272,7 @@ FlushFL(FL) ==
        ELSE files' = FlushInto(files, w) /\ w' = [w EXCEPT !.buf = <<>>] /\ rep' = <<>> /\ recov' = recov
     /\ lastfx' = <<"fs:flush">> /\ nfx' = nfx + 1
     /\ UNCHANGED <<dir, clk, cfg, logged, wt, runs, trigs, advs, gone, okgone, forced, extgone, exts, moved, olddirs, sws,
-                   needReopen, hist, plan, lostw>>
+                   needReopen, hist, plan, lostw, lnk>>
 
 \* shutdown + drop: the buffer is flushed (failures of the flush points on this path are ignored by the code)
 StopF == Quiet(Stop)
@@ -266,6 +304,9 @@ C19_RotationResumes ==
     (w.st = "act" /\ cfg.rot /\ cfg.size >= 0 /\ cfg.age = "-" /\ recov >= 1 /\ w.ino \in DOMAIN files) =>
         LET ids == files[w.ino].ids \o w.buf IN
         Len(ids) <= 1 \/ BytesOf(SubSeq(ids, 1, Len(ids) - 1)) <= cfg.size
+\* a configured symlink resolves to the file being written to, once a file is open
+\* (C16; without failures: a failed open leaves the link dangling or pointing to the file that could not be mounted)
+C19_LinkResolves == (plan.from = 0 /\ lnk.on /\ w.st = "act") => (lnk.has /\ lnk.n = w.path)
 \* the writer's file is always reachable under a family name (nothing is written into an unlinked file)
 C19_WriterFileLinked == (w.st = "act") => w.ino \in Range(dir)
 =============================================================================
